@@ -1,6 +1,6 @@
 (* C37 — Graph operations keep a valid topological order (pydra/engine/graph.py, DiGraph). *)
 From Pydra Require Import Base.Prelude Model.Graph Spec.Graph
-  Proofs.GraphSort Proofs.GraphInv Proofs.GraphEdges Proofs.GraphTopo.
+  Proofs.GraphSort Proofs.GraphInv Proofs.GraphEdges Proofs.GraphTopo Proofs.GraphLive Proofs.GraphWf.
 Local Open Scope nat_scope.
 
 (* Every history of DiGraph operations — constructor, then any list of add_nodes / add_edges /
@@ -58,3 +58,61 @@ Example C37_example :
                run_dom g0 ops = true /\ run g0 ops = Ok g /\
                g_sorted g = Some [1; 3; 4; 0] /\ g_nodes g = [1; 3; 4; 0].
 Proof. vm_compute. eexists. eexists. repeat split. Qed.
+
+(* ------------------------------------------------------------------------------------------
+   A well-formed remove_nodes call succeeds.  [wf_state]: the order invariant, consistent
+   dictionaries ([consistent]: predecessors / successors list exactly the edges, every recorded
+   node has its entries, no connection to an unknown node) and acyclic connections among all
+   recorded nodes.  The precondition is the computable one of the executable reference reading
+   (Spec.Graph.pre_opb): distinct nodes of the graph, and with check_ready no remaining
+   predecessor.  Then the model returns (no exception value), the result is again well-formed,
+   and C37_reachable's conclusion holds for it: a history of well-formed remove_nodes calls
+   never raises and always leaves a valid order.
+   NOT proved here (checked by the executable reading only): the same for
+   remove_nodes_connections, remove_previous_connections and remove_successors_nodes. *)
+Theorem C37_wellformed_remove_nodes_succeeds :
+  forall g l check_ready,
+    wf_state g -> inv2 g -> pre_opb g (RemoveNodes l check_ready) = true ->
+    exists g', step g (RemoveNodes l check_ready) = Ok g' /\ wf_state g' /\ inv2 g' /\
+               sorted_ok g' /\ sorted_ok_preds g'.
+Proof. exact wellformed_remove_nodes. Qed.
+Print Assumptions C37_wellformed_remove_nodes_succeeds.
+
+(* combined, for whole histories of such calls on a constructed acyclic graph *)
+Fixpoint removals_ok (g : graph) (calls : list (list node * bool)) : bool :=
+  match calls with
+  | [] => true
+  | (l, c) :: r => pre_opb g (RemoveNodes l c) &&
+                   match step g (RemoveNodes l c) with Ok g' => removals_ok g' r | Err _ => true end
+  end.
+
+Theorem C37_wellformed_removals_never_raise :
+  forall ns es g0 calls,
+    init ns es = Ok g0 -> acyclic ns es -> removals_ok g0 calls = true ->
+    exists g, run g0 (map (fun lc => RemoveNodes (fst lc) (snd lc)) calls) = Ok g /\ sorted_ok g /\ sorted_ok_preds g.
+Proof.
+  intros ns es g0 calls Hi Ha.
+  assert (W : wf_state g0) by (eapply init_wf; eauto).
+  assert (I2 : inv2 g0) by (eapply init_inv2; eauto).
+  clear Hi Ha. revert g0 W I2. induction calls as [|[l c] r IH]; intros g0 W I2 H.
+  - exists g0. split; [reflexivity|]. split; intros s E.
+    + apply sorted_valid_edges; auto.
+    + apply sorted_valid_preds; auto. exact (proj1 I2).
+  - cbn [removals_ok] in H. apply andb_true_iff in H. destruct H as [P H].
+    destruct (wellformed_remove_nodes g0 l c W I2 P) as [g1 [S1 [W1 [I1 _]]]]. rewrite S1 in H.
+    destruct (IH g1 W1 I1 H) as [g [R Q]]. exists g. split; [|exact Q].
+    cbn [map fst snd]. unfold run in *. cbn [foldM]. rewrite S1. cbn [bind]. exact R.
+Qed.
+Print Assumptions C37_wellformed_removals_never_raise.
+
+(* the hypotheses are met: the diamond of test_graph.py, removed front to back, unsorted *)
+Example C37_wellformed_example :
+  exists g0, init [0; 1; 2; 3] [(0, 1); (0, 2); (1, 3); (2, 3)] = Ok g0 /\
+             acyclic [0; 1; 2; 3] [(0, 1); (0, 2); (1, 3); (2, 3)] /\
+             removals_ok g0 [([0], true); ([2; 1], false); ([3], false)] = true.
+Proof.
+  eexists. split; [vm_compute; reflexivity|]. split; [|vm_compute; reflexivity].
+  apply (topo_valid_acyclic _ _ [0; 1; 2; 3]). split; [repeat constructor; cbn; intuition lia|].
+  split; [reflexivity|]. intros a b H _ _. cbn in H.
+  repeat (destruct H as [H|H]; [inversion H; subst; cbn; lia|]). contradiction.
+Qed.
